@@ -257,7 +257,7 @@ Example addr_roundtrip_ex :
   addr_decode toy_checksum 23 (addr_encode toy_checksum 53 ex_hash) = None.
 Proof. split; [repeat constructor; lia|]. vm_compute. repeat split. Qed.
 
-(* F14: a well-formed Base58Check string whose payload is not prefix + 20 bytes is not an address *)
+(* F15: a well-formed Base58Check string whose payload is not prefix + 20 bytes is not an address *)
 Example addr_decode_sound_ex :
   addr_decode toy_checksum 53 (addr_encode toy_checksum 53 ex_hash) = Some ex_hash /\
   check_decode toy_checksum (check_encode toy_checksum (53 :: ex_hash ++ [1])) = Some (53 :: ex_hash ++ [1]) /\
